@@ -227,6 +227,32 @@ Fixpoint walk_fixed (read : N -> option N) (fuel : nat) (offset end_ : N) : opti
       else Some offset
   end.
 
+(* ---------------------------------------------------------------- module/dotnet.rs TablesData::finalize, first loop
+       let mut last_method_index = self.methods.len();
+       for class in self.classes.iter().rev() {
+           if let Some(idx) = class.method_def_first_index {
+               if idx <= self.methods.len() { for i in idx..LAST { self.methods[i] … } }
+               last_method_index = idx;
+           } }
+   with LAST = last_method_index on the pinned tree and last_method_index.min(self.methods.len()) after fix daab348.
+   `classes_rev` lists the method_def_first_index of the classes in the order the loop visits them (attacker-
+   controlled TypeDef.MethodList values); `self.methods[i]` is a checked index. *)
+Fixpoint index_loop (count : nat) (i len : N) : res unit :=
+  match count with
+  | O => Ok tt
+  | S c => if i <? len then index_loop c (i + 1) len else Panic        (* self.methods[i] *)
+  end.
+
+Fixpoint finalize_methods (fixed : bool) (classes_rev : list (option N)) (last len : N) : res unit :=
+  match classes_rev with
+  | [] => Ok tt
+  | None :: rest => finalize_methods fixed rest last len
+  | Some idx :: rest =>
+      let bound := if fixed then N.min last len else last in
+      let* _ := (if idx <=? len then index_loop (N.to_nat (bound - idx)) idx len else Ok tt) in
+      finalize_methods fixed rest idx len
+  end.
+
 (* ---------------------------------------------------------------- case term for the `kernel` cases of C09 *)
 Definition optN_eqb (a b : option N) : bool := opt_eqb N.eqb a b.
 
